@@ -30,7 +30,8 @@ CONSTANTS NS,      \* subscriber slots 1..NS
           Ticks,   \* BOOLEAN: resync-timer ticks are schedulable steps (exhaustive configs)
           Beh,     \* BOOLEAN: behaviour enumeration (history in the state, canonical forms)
           Mut,     \* "none" = the code as written; other values: seeded deviations (anti-vacuity)
-          AddEv    \* BOOLEAN: also the composed operation "addev" (an object event arriving WHILE a handler is being added)
+          AddEv    \* BOOLEAN: also the composed operations "addev" (an object event arriving WHILE a handler is being added)
+                   \* and "remev" (a subscriber removing its handlers WHILE an event is being broadcast)
 
 Slots == 1..NS
 Res   == 1..NR
@@ -110,7 +111,7 @@ Init == /\ st = st0 /\ sres = sres0 /\ hinfo = <<>> /\ store = store0 /\ rvc = 0
 Canon(p) ==
   CASE p.t = "sub"  -> /\ (st[p.s] = "none" => \A s2 \in Slots : s2 < p.s => st[s2] # "none")
                        /\ (inf[p.r].gen = 0 => \A r2 \in Res : r2 < p.r => inf[r2].gen > 0)
-    [] p.t = "addev" -> (p.o \notin usedO[sres[p.s]] => \A o2 \in Objs : o2 < p.o => o2 \in usedO[sres[p.s]])
+    [] p.t \in {"addev", "remev"} -> (p.o \notin usedO[sres[p.s]] => \A o2 \in Objs : o2 < p.o => o2 \in usedO[sres[p.s]])
     [] p.t = "oadd" -> /\ (p.r = 1 \/ inf[p.r].gen > 0)
                        /\ (p.o \notin usedO[p.r] => \A o2 \in Objs : o2 < p.o => o2 \in usedO[p.r])
     [] OTHER -> TRUE
@@ -120,6 +121,10 @@ Pre(p) ==
        [] p.t = "add"   -> p.s \in Slots /\ st[p.s] = "open" /\ Len(hinfo) < MaxH /\ p.h = Len(hinfo) + 1
        [] p.t = "addev" -> /\ p.s \in Slots /\ st[p.s] = "open" /\ Len(hinfo) < MaxH /\ p.h = Len(hinfo) + 1
                            /\ p.o \in Objs /\ p.rv > rvc
+       \* the broadcast in flight is held up inside a handler of ANOTHER open subscription of the same informer
+       [] p.t = "remev" -> /\ p.s \in Slots /\ st[p.s] = "open" /\ SlotHs(p.s) # {} /\ p.o \in Objs /\ p.rv > rvc
+                           /\ inf[sres[p.s]].running /\ sgen[p.s] = inf[sres[p.s]].gen
+                           /\ \E s2 \in Slots \ {p.s} : st[s2] = "open" /\ sres[s2] = sres[p.s] /\ sgen[s2] = sgen[p.s] /\ SlotHs(s2) # {}
        [] p.t = "rem"   -> p.s \in Slots /\ (st[p.s] = "open" \/ (st[p.s] = "closed" /\ SlotHs(p.s) # {}))
        [] p.t = "close" -> p.s \in Slots /\ st[p.s] = "open"
        [] p.t = "oadd"  -> p.r \in Res /\ p.o \in Objs /\ store[p.r][p.o] = 0 /\ p.rv > rvc
@@ -204,6 +209,28 @@ DoAddEv(p) ==
   /\ UNCHANGED <<st, sres, fRef, fShared, sgen, lists>>
   /\ lop' = Lop(p, r, store[r][o], FALSE, FALSE, lists[r], store[r])
 
+\* RemoveEventHandlers is called WHILE an event is being broadcast (the broadcast is inside another subscriber's
+\* handler).  The broadcast holds the read lock of the shared handler until every handler has been called, so the removal
+\* waits: the composition "event ; rem" -- the handlers being removed still get the event BEFORE the removal returns, and
+\* nothing afterwards.  (A broadcast over a snapshot taken under the lock would call them after the removal returned.)
+DoRemEv(p) ==
+  LET s == p.s  r == sres[s]  o == p.o
+      e == IF store[r][o] = 0 THEN Ev("add", o, p.rv, 0) ELSE Ev("upd", o, p.rv, store[r][o])
+      same == { x \in Slots : st[x] # "none" /\ sres[x] = r /\ sgen[x] = sgen[s] }
+  IN
+  /\ store' = [store EXCEPT ![r][o] = p.rv]
+  /\ rvc' = p.rv
+  /\ usedO' = IF Beh THEN [usedO EXCEPT ![r] = @ \cup {o}] ELSE usedO
+  /\ inf' = IF inf[r].running THEN [inf EXCEPT ![r].cache[o] = p.rv] ELSE inf
+  /\ recv' = [h \in Hs |-> IF inf[r].running /\ h \in Fan(r) THEN <<e>> ELSE <<>>]
+  /\ hinfo' = [h \in Hs |-> IF hinfo[h].slot = s THEN [hinfo[h] EXCEPT !.removed = TRUE] ELSE hinfo[h]]
+  /\ CASE Mut = "removeAll"   -> /\ reg' = [x \in Slots |-> IF x \in same THEN <<>> ELSE reg[x]]
+                                 /\ timers' = timers \ UNION { Range(reg[x]) : x \in same }
+       [] Mut = "keepHandler" -> reg' = reg /\ timers' = timers \ Range(reg[s])
+       [] OTHER               -> reg' = [reg EXCEPT ![s] = <<>>] /\ timers' = timers \ Range(reg[s])
+  /\ UNCHANGED <<st, sres, fRef, fShared, sgen, lists>>
+  /\ lop' = Lop(p, r, store[r][o], FALSE, FALSE, lists[r], Zero)
+
 \* informerWrapper.RemoveEventHandlers -> sharedEventHandler.removeHandlers
 DoRem(p) ==
   LET s == p.s  r == sres[s]
@@ -249,12 +276,12 @@ DoFinal(p) == /\ recv' = Quiet /\ UNCHANGED <<ghost, code>>
 
 \* ---- what the PROPERTY expects after the step (declarative; printed with every Beh step)
 StepEvent == CASE lop.t = "oadd" -> <<Ev("add", lop.o, lop.rv, 0)>>
-               [] lop.t = "addev" -> IF lop.orv = 0 THEN <<Ev("add", lop.o, lop.rv, 0)>> ELSE <<Ev("upd", lop.o, lop.rv, lop.orv)>>
+               [] lop.t \in {"addev", "remev"} -> IF lop.orv = 0 THEN <<Ev("add", lop.o, lop.rv, 0)>> ELSE <<Ev("upd", lop.o, lop.rv, lop.orv)>>
                [] lop.t = "oupd" -> <<Ev("upd", lop.o, lop.rv, lop.orv)>>
                [] lop.t = "odel" -> <<Ev("del", lop.o, lop.rv, 0)>>
                [] OTHER -> <<>>
 \* the real (non-replay) events an entitled handler must receive in this step, in order
-MustReal(h) == IF lop.t \in {"oadd", "oupd", "odel", "addev"} /\ hinfo[h].r = lop.r THEN StepEvent ELSE <<>>
+MustReal(h) == IF lop.t \in {"oadd", "oupd", "odel", "addev", "remev"} /\ hinfo[h].r = lop.r THEN StepEvent ELSE <<>>
 \* objects a handler added in this step must get replayed
 MustReplay(h) == IF lop.t \in {"add", "addev"} /\ h = lop.h THEN { o \in Objs : lop.cached[o] > 0 } ELSE {}
 ExpW == [r \in Res |-> IF Open(r) # {} THEN 1 ELSE 0]
@@ -274,6 +301,7 @@ Do(p) ==
      \/ p.t = "close" /\ DoClose(p)
      \/ p.t = "add"   /\ DoAdd(p)
      \/ p.t = "addev" /\ DoAddEv(p)
+     \/ p.t = "remev" /\ DoRemEv(p)
      \/ p.t = "rem"   /\ DoRem(p)
      \/ p.t \in {"oadd", "oupd", "odel"} /\ DoObj(p)
      \/ p.t = "tick"  /\ DoTick(p)
@@ -288,6 +316,7 @@ Ops ==
   \cup {Op(t, 0, r, o, FALSE, 0, rvc + 1) : t \in {"oadd", "oupd", "odel"}, r \in Res, o \in Objs}
   \cup (IF Ticks THEN {Op("tick", 0, 0, 0, FALSE, h, 0) : h \in timers} ELSE {})
   \cup (IF AddEv THEN {Op("addev", s, 0, o, own, Len(hinfo) + 1, rvc + 1) : s \in Slots, o \in Objs, own \in BOOLEAN} ELSE {})
+  \cup (IF AddEv THEN {Op("remev", s, 0, o, FALSE, 0, rvc + 1) : s \in Slots, o \in Objs} ELSE {})
 
 Next == n < MaxOps /\ \E p \in Ops : Do(p)
 Spec == Init /\ [][Next]_vars
@@ -302,7 +331,8 @@ ModelObs ==
    lists  |-> lists,
    lister |-> [s \in Slots |-> IF st[s] = "open" /\ sgen[s] = inf[sres[s]].gen THEN inf[sres[s]].cache ELSE Zero],
    recv   |-> recv,
-   late   |-> [h \in Hs |-> IF hinfo[h].removed THEN Len(recv[h]) ELSE 0],
+   \* (what the handlers removed by "remev" received in that step came BEFORE the removal returned)
+   late   |-> [h \in Hs |-> IF hinfo[h].removed /\ ~(lop.t = "remev" /\ hinfo[h].slot = lop.s) THEN Len(recv[h]) ELSE 0],
    miss   |-> { h \in Hs : Entitled(h) /\ ~Reached(h) }]
 ModelValid(r, o, rv) == o \in Objs /\ rv > 0 /\ rv <= rvc
 
@@ -339,7 +369,7 @@ P_Complete(ob, Valid(_, _, _)) == ob.has => \A h \in Hs : Entitled(h) =>
 \* nothing after its subscription removed it
 P_Silent(ob) == ob.has => \A h \in Hs : hinfo[h].removed => ob.late[h] = 0
 \* removing one subscriber's handlers or closing its subscription never affects another
-P_Isolation(ob) == (ob.has /\ lop.t \in {"rem", "close"}) =>
+P_Isolation(ob) == (ob.has /\ lop.t \in {"rem", "close", "remev"}) =>
   /\ \A h \in Hs : (Entitled(h) /\ hinfo[h].slot # lop.s) => h \notin ob.miss
   /\ \A s \in Slots : (st[s] = "open" /\ s # lop.s) => ob.w[sres[s]] = 1 /\ ob.lister[s] = store[sres[s]]
 
